@@ -178,9 +178,6 @@ func runC07(rc *RC) {
 				rc.Infraf("handler write failed: %v", err)
 			}
 		}
-		if in.id == "" {
-			in.wrote = in.wrote // replies with an empty id are not claimed either way
-		}
 		if ch.Chance("handler", 1, 14) {
 			in.hErr = true
 			if errAt < 0 {
